@@ -636,8 +636,26 @@ def case_multi(E, R, idx, rng, cdir):
     B = E.B
     tool = rng.choice(["xz-dc", "xz-dc", "xz-dc", "xzdec"])
     ins = []
+    # a third of the two-file runs aim at state that must not be carried from one file to the next: the first
+    # file is a valid file of one format (e.g. .lz, whose trailing data is allowed), the second a file of
+    # another format that is invalid only because of what follows its end (trailing bytes) or a cut
+    carry = rng.random() < 0.35
     for n in range(2):
-        if rng.random() < 0.6:
+        if carry:
+            fmt = rng.choice([".lz", ".lz", ".lzma", ".xz"]) if n == 0 else rng.choice([".lzma", ".lzma", ".xz", ".lz"])
+            cands = [q for q in E.good if q.endswith(fmt)]
+            p = rng.choice(cands)
+            data, suffix, descr = open(p, "rb").read(), fmt, "tests/files/" + os.path.basename(p)
+            if n == 0:
+                info = {"cls": "valid", "descr": descr}
+            elif rng.random() < 0.7:
+                data, k = M.garbage(rng, data)
+                info = {"cls": "garbage", "descr": descr + " + trailing " + k}
+            else:
+                data = M.truncate(rng, data)
+                info = {"cls": "truncated", "descr": descr + " truncated to %d" % len(data)}
+            R.count("multi_carry_state_cases")
+        elif rng.random() < 0.6:
             plain, shape = M.sparse_plain(rng, B, rng.choice(["endhole", "tail", "head", "allzero", "exact", "middle"]))
             data = compress(E, plain, ["-0"], cdir, "plain.tmp")
             info = {"cls": "valid", "descr": "xz -0 of sparse-%s(%d)" % (shape, len(plain))}
